@@ -637,6 +637,19 @@ def check_detector(fn, F=None, target_field=None):
             continue
         if p.end == "exit-ret":
             (eb, es), v = p.info
+            if v is not None and not is_const(v):
+                # the verdict is the truth of a test (`return is_dotdot(...)`): non-zero when it holds (a report), zero when it does not -
+                # the zero case is judged with the facts of the test being false added to the path
+                c_, neg_ = S._resolve_bool(v, p.env)
+                if is_const(c_) and const_val(c_) is not None:
+                    v = ("ci", int(bool(const_val(c_)) != neg_), 32)
+                else:
+                    dc_ = S.fn.defn(c_)
+                    if dc_ is not None and not dc_.is_param and (dc_.op == "icmp" or dc_.ty == "i1"):
+                        stats["report"] += 1
+                        extra = [(f_, dict(p.env)) for f_ in S.F.cond_facts(c_, neg_) if f_[0] != "in"]      # value zero <=> test false (xor neg)
+                        p = Path(p.facts + extra, p.env, p.end, (p.info[0], ("ci", 0, 32)), p.blocks, p.inner)
+                        v = ("ci", 0, 32)
             zero = v is not None and is_const(v) and const_val(v) == 0
             if not zero:
                 if v is not None and is_const(v):
